@@ -143,3 +143,11 @@ def vch2bn_dec(s: Bytes):
     split(len(s), 0, 9)
     option(byte_level=True)
     ensures(result == num_dec(s))
+
+
+@contract('bitcoin.core.script:CScript.raw_iter', name='raw_iter_bounded', prop=P)
+def raw_iter_bounded(self: Bytes(cls=CScript)):
+    """BOUNDED companion of raw_iter_step: the whole token sequence (and the point where an
+    invalid-script error ends it) equals the reference tokenisation, on generated scripts"""
+    option(bounded=1500)
+    ensures(drain(result) == ref_tokens(self))
